@@ -58,11 +58,11 @@ def _gcd(a=None, b=None, terms=None):
 
 
 def _lcm(a=None, b=None, terms=None):
-    """Return lowest common multiple."""
-    if terms:
-        return reduce(lambda a, b: _lcm(a, b), terms)
+    """Return lowest common multiple (1 for an empty list of terms)."""
+    if terms is not None:
+        return reduce(lambda a, b: _lcm(a, b), terms, 1)
     else:
-        return (a * b) / _gcd(a, b)
+        return (a * b) // _gcd(a, b)
 
 
 def _note2musicxml(note):
